@@ -5,7 +5,9 @@
    (quiescent) the harness reads every public view, takes snapshots, restores them, sends a probe
    packet and a probe command, and records
      [ nosend |-> 0/1, nodisc |-> 0/1,        \* the gateway's configured flags
-       ev |-> << [k, name, res, before, after] ... >> ]
+       ev |-> << [k, name, res, before, after, tr] ... >> ]
+   tr = 1 if a transport is bound when the event ends (the gateway has been started), 0 in the phase
+   'not yet started' (Engine.tla: tr): histories may begin with operations at point zero, before start()
    k = "view"   a public view (schema/params/status/traits/known_list) of the gateway, a device,
                 a system or a zone was read: res = "ok" or the exception type
        "op"     name = "get_state" | "restore": res = "ok" or the exception type;
@@ -13,6 +15,9 @@
        "opx"    as "op", with a failure injected into the operation's body by the harness ("whether or not the
                 operation itself succeeded"); the exception is the harness's own, so it is not a C13a finding
        "nested" as "op", but requested while a restore is in flight (the engine is paused by it)
+       "start"  Gateway.start() after operations in the phase 'not yet started' (Engine.tla: Bind): before / after
+                as for "op"; the gateway must now be running (still receiving, still able to send), as one
+                that was started with no operation before is
        "probe"  name = "packet" (a packet of a fresh device), "known" (a packet of a device the
                 gateway was tracking), "send" (a command): res = "ok" | "lost" | exception type
    Clauses (Appendix A): C13a every view returns without raising (the snapshot included);
@@ -33,7 +38,7 @@ P(q) == <<q[1], B(q[2]), B(q[3]), B(q[4]), B(q[5]), B(q[6])>>
 
 TInit ==
   /\ tid \in 1..Len(Traces) /\ l = 1 /\ fail = <<>>
-  /\ es = "none" /\ hdl = TRUE /\ snd = FALSE /\ rd = TRUE /\ pw = FALSE /\ disc = FALSE
+  /\ es = "none" /\ hdl = TRUE /\ snd = FALSE /\ rd = TRUE /\ pw = FALSE /\ disc = FALSE /\ tr = TRUE
   /\ saved = <<TRUE, FALSE, FALSE>> /\ calls = <<>> /\ done = NoDone /\ h = <<>>
 
 Add(f, line, cls) == IF cls = "" \/ \E i \in 1..Len(f) : f[i][2] = cls THEN f ELSE Append(f, <<line, cls>>)
@@ -44,8 +49,12 @@ Class(e) ==
   LET noSend == B(Traces[tid].nosend)  noDisc == B(Traces[tid].nodisc) IN
   IF e.k = "view" THEN (IF e.res = "ok" THEN "" ELSE "C13a:view-raises:" \o e.name \o ":" \o e.res)
   ELSE IF e.k \in {"op", "opx"} THEN    \* opx: the harness made the operation's body raise (injected failure)
-     IF ~(SameProj(P(e.after), P(e.before)) /\ Running(P(e.after), noSend, noDisc))
+     IF ~(SameProj(P(e.after), P(e.before)) /\ RunningIn(P(e.after), B(e.tr), noSend, noDisc))
      THEN "C13b:not-running-as-before-after-" \o e.name \o (IF e.res = "ok" THEN "" ELSE "-raised:" \o e.res)
+     ELSE ""
+  ELSE IF e.k = "start" THEN    \* start() after operations on the not yet started gateway: it must be running now
+     IF ~Running(P(e.after), noSend, P(e.before)[6])   \* (Bind leaves disable_discovery as it finds it)
+     THEN "C13b:not-running-once-started-after-operations-before-start"
      ELSE ""
   ELSE IF e.k = "nested" THEN    \* an operation requested while a restore is in flight: exactly as before, no more
      IF ~SameProj(P(e.after), P(e.before))
